@@ -13,9 +13,12 @@
      (join N err ferr conv (ret (res) err log))
      (traverse (ids) ((id tag) ..) (ret nil|(res) err (visited ids)))
      (toerror NOUT (args) success errtag (ret (outs) err ((args))))
-     (zero KIND NAMED LIT)                                                                *)
+     (zero KIND NAMED LIT)
+     (ir (a0 .. an) (STMT ..))     the body of a generated deriveCompose, translated by the harness:
+                                   STMT = (call ((i j) ..) ev fn ((i j) ..)) | (iferr ev nzeros) | (ret ((i j) ..))
+                                   variables numbered by where they are defined, not by name   *)
 From Verif Require Import Base Sexp Fmap.
-From Verif.Chain Require Import Chain ChainProofs Zero.
+From Verif.Chain Require Import Chain ChainProofs Zero ComposeIR.
 Open Scope string_scope.
 
 (* ---- the instrumented stages of the harness ---- *)
@@ -279,6 +282,72 @@ Definition eval_zero (kind nm real : sexp) : verdict :=
   | _, _, _ => bad_line
   end.
 
+(* ---- the translated text of a generated deriveCompose (T) ---- *)
+Definition vn_sexp (x : vname) : sexp := L [of_nat (fst x); of_nat (snd x)].
+Definition stmt_sexp (st : stmt) : sexp :=
+  match st with
+  | SCall outs ev fn args => L [Sym "call"; L (map vn_sexp outs); of_nat ev; of_nat fn; L (map vn_sexp args)]
+  | SIfErr ev nz => L [Sym "iferr"; of_nat ev; of_nat nz]
+  | SRet vals => L [Sym "ret"; L (map vn_sexp vals)]
+  end.
+
+Definition get_vn (e : sexp) : option vname :=
+  match e with L [Num a; Num b] => Some (Z.to_nat a, Z.to_nat b) | _ => None end.
+Definition get_vns (e : sexp) : option (list vname) :=
+  match e with L l => map_opt get_vn l | _ => None end.
+Definition get_stmt (e : sexp) : option stmt :=
+  match e with
+  | L [Sym k; a; Num ev; Num fn; b] =>
+      if String.eqb k "call" then
+        match get_vns a, get_vns b with
+        | Some outs, Some args => Some (SCall outs (Z.to_nat ev) (Z.to_nat fn) args)
+        | _, _ => None
+        end
+      else None
+  | L [Sym k; Num ev; Num nz] => if String.eqb k "iferr" then Some (SIfErr (Z.to_nat ev) (Z.to_nat nz)) else None
+  | L [Sym k; a] => if String.eqb k "ret" then option_map SRet (get_vns a) else None
+  | _ => None
+  end.
+
+(* error placements used to run the translated text: none, and each stage alone *)
+Fixpoint placements (n k : nat) : list (list Z) :=
+  match k with
+  | O => [repeat 0%Z n]
+  | S k' => (repeat 0%Z k' ++ [1%Z] ++ repeat 0%Z (n - k))%list :: placements n k'
+  end.
+
+Definition cout_eqb (a b : option (@cout Z Z)) : bool :=
+  match a, b with
+  | Some x, Some y => sexp_eqb (cout_sexp x) (cout_sexp y)
+  | _, _ => false
+  end.
+
+Definition eval_ir (ar body : sexp) : verdict :=
+  match get_nats ar, body with
+  | Some (a0 :: ar'), L stmts =>
+      match map_opt get_stmt stmts with
+      | Some real =>
+          let n := length ar' in
+          let args := map Z.of_nat (seq 1 a0) in
+          let nfinal := last ar' 0%nat in
+          let expected := compose_body (a0 :: ar') in
+          let same_meaning :=
+            forallb (fun errs =>
+                       let fs := hstages 0 ar' errs in
+                       cout_eqb (exec 0%Z fs real (combine (vrow 0 a0) args) [] [])
+                                (Some (compose 0%Z fs nfinal args)))
+                    (placements n n) in
+          {| v_known := true;
+             v_model_ok := sexp_eqb (L (map stmt_sexp expected)) body;
+             v_spec_ok := same_meaning;
+             v_guard := true;
+             v_model := L (map stmt_sexp expected);
+             v_tag := "compose-text/n" ++ digit n |}
+      | None => bad_line
+      end
+  | _, _ => bad_line
+  end.
+
 Definition eval16 (e : sexp) : verdict :=
   match e with
   | L (Sym k :: rest) =>
@@ -296,6 +365,7 @@ Definition eval16 (e : sexp) : verdict :=
           if String.eqb k "traverse" then eval_traverse a b real else
           if String.eqb k "zero" then eval_zero a b real else
           bad_line
+      | [a; b] => if String.eqb k "ir" then eval_ir a b else bad_line
       | _ => bad_line
       end
   | _ => bad_line
